@@ -205,6 +205,19 @@ theorem mark_of_v4mapped (m : Marker) (a : UInt32) :
   refine ⟨rfl, ?_⟩
   simp [Marker.mark, lookupAddr, Addr.isValid, addr2Ipv6]
 
+/-- without a configured range file every client is in the empty group -/
+theorem ipMark_no_marker (a : Addr) : ipMark none a = some [] := rfl
+
+/-- non-vacuity of the hypotheses of `lookup_correct_any_sort` / `build_rejects_overlap`:
+    10.0.1.0-10.0.1.0 and 10.0.0.0-10.0.0.255, added in the "wrong" order. -/
+example : IsBuildOf
+    [⟨1, ⟨0, 0xffff0a000000⟩, ⟨0, 0xffff0a0000ff⟩⟩, ⟨2, ⟨0, 0xffff0a000100⟩, ⟨0, 0xffff0a000100⟩⟩]
+    [(⟨2, ⟨0, 0xffff0a000100⟩, ⟨0, 0xffff0a000100⟩⟩ : Range Nat), ⟨1, ⟨0, 0xffff0a000000⟩, ⟨0, 0xffff0a0000ff⟩⟩] :=
+  ⟨List.Perm.swap _ _ _, by simp [StartLe, Ipv6.val], by decide⟩
+example : ¬ List.Pairwise Disj
+    [(⟨2, ⟨0, 5⟩, ⟨0, 9⟩⟩ : Range Nat), ⟨1, ⟨0, 9⟩, ⟨0, 12⟩⟩] := by
+  simp [Disj, Ipv6.val]
+
 /-- ★ (component `ipmark`) whole-file statement, for every range file, address parser and client list:
     the loader rejects a file only if a line does not parse, a range has start > end or two ranges
     intersect; otherwise `Mark` never panics and gives every client the label of the unique range
@@ -280,6 +293,50 @@ theorem no_reader_while_writing {s : State K V} (h : Reachable s) {t t' e : Nat}
   rw [i.excl e t a] at b
   cases b
 
+/-- data-race freedom on the entry fields `k`, `v`: a statement that writes them never coexists
+    with another thread's statement that reads or writes them (this is what justifies treating each
+    Go statement as one atomic step). -/
+theorem data_race_free {s : State K V} (h : Reachable s) {t t' e : Nat}
+    (hw : (s.pc t).writes = some e)
+    (ha : (s.pc t').writes = some e ∨ (s.pc t').reads = some e) : t = t' := by
+  have hws : (s.pc t).wsec = some e := by
+    cases hp : s.pc t <;> simp_all [Pc.writes, Pc.wsec]
+  rcases ha with ha | ha
+  · apply write_sections_exclusive h hws
+    cases hp : s.pc t' <;> simp_all [Pc.writes, Pc.wsec]
+  · exfalso
+    apply no_reader_while_writing h (t' := t') hws
+    cases hp : s.pc t' <;> simp_all [Pc.reads, Pc.rsec]
+
+/-- every step of the faithful layer (otter as a map with a deletion queue, `sync.Pool` as a list)
+    is a step of the adversarial layer or leaves the entries and threads untouched -/
+theorem faithful_refines {s s' : FState K V} (h : FStep s s') :
+    Step s.core s'.core ∨ s'.core = s.core := by
+  cases h with
+  | «local» c c' b st _ _ _ => exact .inl st
+  | newPooled c b t k v nx e pre post hpc _ => exact .inl (.storeNew c t k v nx e hpc)
+  | newFresh c b t k v nx hpc => exact .inl (.storeNew c t k v nx b.next hpc)
+  | set c b t e k v hpc => exact .inl (.storeSet c t e k v false hpc)
+  | setIfAbsent c b t e k v hpc => exact .inl (.storeSet c t e k v true hpc)
+  | lookupHit c b t k e hpc _ => exact .inl (.getLookupHit c t k e hpc)
+  | evict c b k e _ => exact .inr rfl
+  | listener c b t e pre post hpc _ => exact .inl (.callRelease c t e hpc)
+  | put c b t e hpc => exact .inl (.relPut c t e hpc)
+  | poolDrop c b pre post e _ => exact .inr rfl
+
+theorem faithful_reachable {s : FState K V} (h : FReachable s) : Reachable s.core := by
+  induction h with
+  | init => exact .init
+  | step _ st ih =>
+    rcases faithful_refines st with h' | h'
+    · exact ih.step h'
+    · rw [h']; exact ih
+
+/-- ★ `hit_same_key` on the faithful layer -/
+theorem hit_same_key_faithful {s : FState K V} (h : FReachable s) (t : Nat) (k : K) (v : V)
+    (hp : s.core.pc t = .gDone k (some v)) : (k, v) ∈ s.core.hist :=
+  hit_same_key (faithful_reachable h) t k v hp
+
 /-- non-vacuity: a run in which thread 0 stores (7, 42) into entry 3 and thread 1 then gets it. -/
 example : ∃ s : State Nat Nat, Reachable s ∧ s.pc 1 = .gDone 7 (some 42) := by
   let s0 : State Nat Nat := init
@@ -349,6 +406,13 @@ theorem hit_same_question {V : Type} {s : State CacheKey.Bytes V} (hr : Reachabl
   refine ⟨q₁, m₁, hk ▸ hmem, ?_⟩
   have : reqKey [] q₁ m₁ = reqKey [] q₂ m₂ := by rw [keyOf_is_reqKey, keyOf_is_reqKey, hk]
   exact key_injective hq₁ hq₂ this
+
+/-- non-vacuity of `hit_same_question`'s caller hypothesis: it holds in the initial state and is
+    kept by a `Store` call whose key comes from `keyOf`. -/
+example {V : Type} : ∀ k (v : V), (k, v) ∈ (init : State CacheKey.Bytes V).hist →
+    ∃ q m, WfName63 q.name ∧ k = keyOf q m := by
+  intro k v h; cases h
+example : keyOf ⟨[3, 87, 87, 87], 1, 28⟩ [108] = [3, 119, 119, 119, 0, 0, 1, 0, 28, 108] := by decide
 
 /-! ## 5. the value: what is served equals what was stored, up to TTL ageing and ID -/
 
@@ -445,7 +509,12 @@ theorem pins_netlist :
     Facts.im_trim = "t = strings.TrimSpace(t)" ∧
     Facts.im_add = "ok := listBuilder.Add(start, end, idx)" ∧
     Facts.im_assign = "idx := assignIdx(markStr)" ∧
-    Facts.im_markIdx = "return m.s[idx]" := by
+    Facts.im_markIdx = "return m.s[idx]" ∧
+    Facts.im_newIdx = "idx = len(labels) - 1" ∧
+    Facts.im_nilMarker = "c.ipMarker == nil || !addr.IsValid()" ∧
+    Facts.im_markInvalid = "!addr.IsValid()" ∧
+    Facts.nl_lookupAddrInvalid = "!addr.IsValid()" ∧
+    Facts.nl_addInvalid = "!start.IsValid() || !end.IsValid()" := by
   (repeat' apply And.intro) <;> rfl
 
 end MosVerif.C07
